@@ -16,6 +16,30 @@ import ast
 _NEG = {ast.Eq: ast.NotEq, ast.NotEq: ast.Eq, ast.Is: ast.IsNot, ast.IsNot: ast.Is, ast.In: ast.NotIn, ast.NotIn: ast.In}
 
 
+def benign_log_arg(e) -> bool:
+    """a logging argument outside any except handler: additionally plain attribute chains on names and
+    type(x).__name__ are taken to do nothing. No rule models an attribute read as something that can raise,
+    except C26's handler-total, which is about trigger()'s except body - there (and in every other except
+    handler) only the strict `inert` applies."""
+    if inert(e):
+        return True
+    if isinstance(e, ast.Attribute):
+        return benign_log_arg(e.value)
+    if isinstance(e, ast.Call) and isinstance(e.func, ast.Name) and e.func.id == "type" and len(e.args) == 1 and not e.keywords:
+        return benign_log_arg(e.args[0])
+    if isinstance(e, ast.JoinedStr):
+        return all(benign_log_arg(v) for v in e.values)
+    if isinstance(e, ast.FormattedValue):
+        return benign_log_arg(e.value)
+    if isinstance(e, ast.BinOp) and isinstance(e.op, (ast.Add, ast.Mod)):
+        return benign_log_arg(e.left) and benign_log_arg(e.right)
+    if isinstance(e, ast.Tuple):
+        return all(benign_log_arg(v) for v in e.elts)
+    if isinstance(e, ast.Call) and isinstance(e.func, ast.Name) and e.func.id in ("str", "repr") and len(e.args) == 1 and not e.keywords:
+        return benign_log_arg(e.args[0])
+    return False
+
+
 def inert(e) -> bool:
     """evaluating `e` cannot do anything observable: constants, plain names, f-strings / concatenations /
     tuples of those, and str() / repr() of those (an attribute read or any other call can raise or run code)"""
@@ -41,6 +65,13 @@ class Canon(ast.NodeTransformer):
         self.stripped = 0
         self._skip = 0
         self._skip_strip = False
+        self._in_handler = 0
+
+    def visit_ExceptHandler(self, node):
+        self._in_handler += 1
+        self.generic_visit(node)
+        self._in_handler -= 1
+        return node
 
     def visit_FunctionDef(self, node):
         skip = node.name in ("__eq__", "__ne__")
@@ -85,7 +116,8 @@ class Canon(ast.NodeTransformer):
             if isinstance(s, ast.Expr) and isinstance(s.value, ast.Call) and isinstance(s.value.func, ast.Attribute) and isinstance(s.value.func.value, ast.Name) and s.value.func.value.id.lower().endswith("logger") and s.value.func.attr in ("debug", "info", "warning", "error", "exception", "critical", "log"):
                 # only when evaluating the arguments cannot do anything: constants, plain names, and
                 # f-strings / concatenations of those (an attribute read or a call in a log argument can raise)
-                if all(inert(a) for a in s.value.args) and all(inert(k.value) for k in s.value.keywords):
+                ok_arg = inert if self._in_handler else benign_log_arg
+                if all(ok_arg(a) for a in s.value.args) and all(ok_arg(k.value) for k in s.value.keywords):
                     self.stripped += 1
                     continue
             out.append(s)
